@@ -302,7 +302,27 @@ def c16(tier, seed):
     return c.finish()
 
 
-PROPS = {"C16": c16, "C15": c15, "C14": c14, "C11": c11, "C12": c12, "C10": c10, "C13": c13, "C06": c06, "C08": c08, "C09": c09, "C01": c01, "C02": c02, "C03": c03, "C04": c04, "C05": c05}
+def c17(tier, seed):
+    c = Check("C17", tier, seed)
+    c.rule = "MC (VsockCreditMC): the transmit credit window with real 32-bit free-running counters (two 16-bit limbs) started 3 below the wrap, peer buffer 3 bytes, peer consuming and reporting at arbitrary instants, sends of 0..4 bytes: in-flight never exceeds the peer's space, at most one credit request per refusal episode; negative configuration (non-modular compare) overruns; traces: (a) connection-manager histories with random packetisation / read sizes, capacities 1,7,512,1024,65536, credit exhaustion, ring wrap-around, every packet's addressing/len/type/buf_alloc/fwd_cnt checked, bytes read compared run by run with bytes sent; (b) real-width wrap: 4.8 GB sent and 4.3 GB received+read on one connection so tx_cnt and fwd_cnt pass 2^32, counters checked on the wire with limb arithmetic"
+    c.assumptions = ["the scripted peer honours the credit the driver advertises (fills in its credit fields at delivery time)", "peer byte streams are affine (+7 mod 256) so runs can be compared without logging payloads"]
+    c.add_mc(run_tlc_mc("VsockCreditMC", "VsockCredit_ok.cfg", workers=4, timeout=600))
+    c.add_mc(run_tlc_mc("VsockCreditMC", "VsockCredit_bug_nowrap.cfg", workers=4, timeout=600), expect_violation=True)
+    device_family(c, "vsock", "VsockTrace", "VsockTrace.cfg", seed, tier, max_events=700)
+    device_family(c, "vsock", "VsockTrace", "VsockTrace.cfg", seed, tier, max_events=10**6, extra=["wrap"], queues=False)
+    return c.finish()
+
+
+def c18(tier, seed):
+    c = Check("C18", tier, seed)
+    c.rule = "Vsock.tla decides the outcome of every local operation and of every received packet from the connection table and listening set (accept/reset of requests, no state for unknown tuples, per-tuple isolation, shutdown with buffered data, NotConnected/ConnectionExists, receive queue restocked after every poll); traces: random histories over 3 peer addresses x 4 local ports with the full packet menu (request, response, reset, shutdown, data, credit update/request, operation 0 and 9, foreign destination cid, data for unknown tuples, non-data packets with a body) on all transports/policies; the model-checking part is the TLC evaluation of every trace state plus VsockCreditMC"
+    c.assumptions = ["an exhaustive connection-level model (VsockConnMC.tla) exists but is too slow to be part of the check (see DESIGN.md); C18 is decided by trace validation against Vsock.tla"]
+    c.add_mc(run_tlc_mc("VsockCreditMC", "VsockCredit_ok.cfg", workers=4, timeout=600))
+    device_family(c, "vsock", "VsockTrace", "VsockTrace.cfg", seed + 17, tier, max_events=700)
+    return c.finish()
+
+
+PROPS = {"C17": c17, "C18": c18, "C16": c16, "C15": c15, "C14": c14, "C11": c11, "C12": c12, "C10": c10, "C13": c13, "C06": c06, "C08": c08, "C09": c09, "C01": c01, "C02": c02, "C03": c03, "C04": c04, "C05": c05}
 
 
 def main():
